@@ -151,6 +151,20 @@ def register(reg):
         },
         ensures=[RI, 'is_none(self.function)'],
         canaries=['len(self.rle_items) == len(old(self.rle_items))', 'len(self.rle_items) != len(old(self.rle_items))']))
+    import z3 as _z3
+    _VALF = _z3.Function('rle_value_function', _z3.IntSort(), _z3.IntSort())
+    RLEF = KRec('RLE', rle_items=KView(ITEM), function=Fn(lambda eng, st, args, kw, node: [(st, _VALF(to_int(args[0])))], 'rle_value_function'))
+    reg.add(Contract(
+        F, 'RLE.add', {'self': RLEF, 'v': Int}, ghost=GHOST, requires=[RI], modifies=['self.rle_items'], returns=NoneK,
+        name='RLE.add[function]', crosscheck=False,
+        ghost_post={
+            'vals': 'vals + [self.function(v)]',      # what is recorded is the converted value, converted once
+            'own': 'own + [len(self.rle_items) - 1]',
+            'start': 'ite(len(self.rle_items) == len(old(self.rle_items)),'
+                     ' start[:len(start) - 1] + [start[len(start) - 1] + 1], start + [start[len(start) - 1] + 1])',
+        },
+        ensures=[RI],
+        canaries=['len(self.rle_items) == len(old(self.rle_items))', 'len(self.rle_items) != len(old(self.rle_items))']), callable_=False)
     reg.add(Contract(
         F, 'RLE.num_values', {'self': RLE}, ghost=GHOST, requires=[RI], returns=Int, ensures=['result == len(vals)'],
         native_gen=G(),
@@ -356,6 +370,29 @@ def gen(rnd, module):
             ' and self.rle_items[%s].repeat >= old(self.rle_items)[%s].repeat'
             ' and implies(old(self.rle_items)[%s].repeat > 0, self.rle_items[%s].stride == old(self.rle_items)[%s].stride))' % ((OLDM,) * 9)],
         canaries=['len(self.rle_items) == len(old(self.rle_items))', 'len(self.rle_items) != len(old(self.rle_items))']))
+    # the same with a position-conversion function installed (RLE(theFunc)): an arbitrary total function on integers; every
+    # position is converted exactly once, before it is compared with the run or stored
+    import z3 as _z3
+    _POSF = _z3.Function('rle_position_function', _z3.IntSort(), _z3.IntSort())
+    POSFN = Fn(lambda eng, st, args, kw, node: [(st, _POSF(to_int(args[0])))], 'rle_position_function')
+    T01F = KRec('RLEType01', rle_items=KView(ITEM01), function=POSFN)
+    reg.add(Contract(
+        FL, 'RLEType01.add', {'self': T01F, 'tellLrPos': Int, 'numFrameS': Int, 'xAxisValue': Real}, ghost=G01,
+        name='RLEType01.add[position function]',
+        requires=['t01_ri(self.rle_items, fstart)', 'numFrameS >= 1'], modifies=['self.rle_items'], returns=NoneK, crosscheck=False,
+        ghost_post={'fstart': 'ite(len(self.rle_items) == len(old(self.rle_items)),'
+                              ' fstart[:len(fstart) - 1] + [fstart[len(fstart) - 1] + numFrameS],'
+                              ' fstart + [fstart[len(fstart) - 1] + numFrameS])'},
+        ensures=[
+            't01_ri(self.rle_items, fstart)',
+            '%s >= 1 and fstart[%s] == old(fstart[len(fstart) - 1]) + numFrameS' % (NI, NI),
+            # the record is indexed at the CONVERTED position, whether it starts a run or extends one
+            '%s._numFrames == numFrameS and %s.datum + %s.repeat * %s.stride == self.function(tellLrPos)' % (LASTI, LASTI, LASTI, LASTI),
+            # a run is extended exactly when the converted position continues it
+            'implies(len(old(self.rle_items)) > 0, (len(self.rle_items) == len(old(self.rle_items))) == '
+            '(numFrameS == old(self.rle_items)[%s]._numFrames and (old(self.rle_items)[%s].repeat == 0 or self.function(tellLrPos) == '
+            'old(self.rle_items)[%s].datum + old(self.rle_items)[%s].stride * (old(self.rle_items)[%s].repeat + 1))))' % ((OLDM,) * 5)],
+        canaries=['len(self.rle_items) == len(old(self.rle_items))', 'len(self.rle_items) != len(old(self.rle_items))']), callable_=False)
     reg.add(Contract(
         FL, 'RLEType01.totalFrames', {'self': T01}, ghost=G01, requires=['t01_ri(self.rle_items, fstart)'], returns=Int,
         native_gen=GEN01.replace(", 'run': run, 'fNum': f", ''),
